@@ -43,6 +43,8 @@ type Case struct {
 	// ones and recorded on once before the threads start (a scope's metric tables grow; handles
 	// handed out earlier must stay the ones the report pass looks at)
 	Filler int `json:"filler,omitempty"`
+	// Caps: what the recording reporter says about itself (rec.CapsOf): advisory only
+	Caps int `json:"caps,omitempty"`
 }
 
 var deltaPool = []int64{0, 1, 1, 1, 2, 3, -1, -2, 1 << 31, -(1 << 31), 9223372036854775807, -9223372036854775808, 1000}
@@ -50,6 +52,7 @@ var deltaPool = []int64{0, 1, 1, 1, 2, 3, -1, -2, 1 << 31, -(1 << 31), 922337203
 func gen(t *rapid.T) Case {
 	c := Case{Cached: rapid.Bool().Draw(t, "cached"), Shards: uint(rapid.SampledFrom([]int{1, 1, 2, 4}).Draw(t, "shards"))}
 	c.NSub = rapid.IntRange(0, 2).Draw(t, "nsub")
+	c.Caps = rapid.SampledFrom([]int{0, 0, 0, 1, 2, 3}).Draw(t, "caps")
 	if rapid.IntRange(0, 9).Draw(t, "filler?") == 0 {
 		c.Filler = rapid.IntRange(14, 24).Draw(t, "filler")
 	}
@@ -113,9 +116,9 @@ func run(c Case) (pbt.Outcome, error) {
 	log := &rec.Log{}
 	opts := tally.ScopeOptions{OmitCardinalityMetrics: true}
 	if c.Cached {
-		opts.CachedReporter = &rec.Cached{L: log}
+		opts.CachedReporter = &rec.Cached{L: log, Caps: rec.CapsOf(c.Caps)}
 	} else {
-		opts.Reporter = &rec.Stats{L: log}
+		opts.Reporter = &rec.Stats{L: log, Caps: rec.CapsOf(c.Caps)}
 	}
 	root, _ := tally.VerifNewRootScope(opts, 0, c.Shards)
 	scopes := []tally.Scope{root}
